@@ -227,6 +227,28 @@ func (v *Verifier) generate(u *Unit) *UnitResult {
 			t.assume(t.spec(cl.Expr, sc))
 		}
 	}
+	// locals whose address is taken outside a call argument list live in a heap cell from their declaration on
+	t.escaped = map[types.Object]bool{}
+	{
+		inCallArg := map[ast.Node]bool{}
+		ast.Inspect(u.Body, func(n ast.Node) bool {
+			if c, ok := n.(*ast.CallExpr); ok {
+				if tv, ok := t.info.Types[c.Fun]; !ok || !tv.IsType() {
+					for _, a := range c.Args {
+						inCallArg[ast.Unparen(a)] = true
+					}
+				}
+			}
+			if ue, ok := n.(*ast.UnaryExpr); ok && ue.Op == token.AND && !inCallArg[ue] {
+				if id, ok := ast.Unparen(ue.X).(*ast.Ident); ok {
+					if o, ok := t.info.ObjectOf(id).(*types.Var); ok && !o.IsField() && o.Parent() != o.Pkg().Scope() {
+						t.escaped[o] = true
+					}
+				}
+			}
+			return true
+		})
+	}
 	// deferred-call registration flags start out false
 	nd := 0
 	ast.Inspect(u.Body, func(n ast.Node) bool {
